@@ -44,6 +44,10 @@ CONSTANTS Secrets, Phantoms, Transports,  \* sets of strings
                                           \* carry a tracked registration ("forgotten entirely");  "keep-unvalidated": the entry of a phantom
                                           \* whose last registration is removed WITHOUT ever having been validated stays behind, empty
                                           \* (a broken instance: state grows with every dropped registration)
+          StaleMark,                      \* what MarkActive does with the handle of a registration that is no longer tracked (a connection
+                                          \* handler looked it up, the sweeper removed it, the handler then marks it):  "ignore": nothing
+                                          \* (what the property needs - an expired registration stays forgotten);  "reinsert": the handle is
+                                          \* filed again as a used registration with a fresh lifetime (a broken instance)
           SweepCap                        \* 0: one sweep removes EVERY expired registration (what the property states - "after a clean-up
                                           \* sweep ... if and only if"); n > 0: a sweep stops after n removals (a broken instance)
 
@@ -104,15 +108,20 @@ Register(k) ==
   /\ obs' = [a |-> "Register", p |-> k[1], t |-> k[2], s |-> k[3],
              announced |-> announce, st |-> Proj(rg2, e[2], idx')]
 
-\* r.markActive(d): the expiry record found under d's key becomes "used"; announce Update
+\* r.markActive(d): the expiry record found under d's key becomes "used"; announce Update.  d is a HANDLE the connection
+\* handler got from a lookup: the registration may have been removed since (stale) - then nothing is found and nothing changes.
 MarkActive(k) ==
-  /\ reg[k] # None
-  /\ LET hit == tmo[TKey(k)] # None
-         tm2 == IF hit THEN [tmo EXCEPT ![TKey(k)].used = TRUE] ELSE tmo IN
-     /\ tmo' = tm2
-     /\ UNCHANGED <<reg, swept, idx>>
-     /\ obs' = [a |-> "MarkActive", p |-> k[1], t |-> k[2], s |-> k[3],
-                announced |-> hit, st |-> Proj(reg, tm2, idx)]
+  LET stale == reg[k] = None
+      hit == tmo[TKey(k)] # None
+      re == stale /\ ~hit /\ StaleMark = "reinsert"
+      tm2 == IF hit THEN [tmo EXCEPT ![TKey(k)].used = TRUE]
+             ELSE IF re THEN [tmo EXCEPT ![TKey(k)] = [k |-> k, age |-> 0, used |-> TRUE]] ELSE tmo
+      rg2 == IF re THEN [reg EXCEPT ![k] = [valid |-> TRUE, count |-> 1]] ELSE reg
+      ix2 == IF re THEN idx \cup {k[1]} ELSE idx IN
+  /\ tmo' = tm2 /\ reg' = rg2 /\ idx' = ix2
+  /\ UNCHANGED swept
+  /\ obs' = [a |-> "MarkActive", p |-> k[1], t |-> k[2], s |-> k[3], stale |-> stale,
+             announced |-> (hit \/ re), st |-> Proj(rg2, tm2, ix2)]
 
 \* getRegistrations(p) (only valid ones) and countRegistrations(p) (all tracked)
 Lookup(p) ==
@@ -188,6 +197,12 @@ ExpiredNeverMatchesAfterSweep ==
 NeverRemovedEarly ==
   [][\A k \in Keys : (reg[k] # None /\ reg'[k] = None) =>
         (tmo[TKey(k)] # None /\ tmo[TKey(k)].k = k /\ Expired(tmo[TKey(k)]))]_vars
+
+\* a registration enters the table only through ingest (Track / Register of that very registration): in particular one that
+\* expired and was swept stays forgotten whatever a connection handler still holding its handle does
+OnlyIngestAdds ==
+  [][\A k \in Keys : (reg[k] = None /\ reg'[k] # None) =>
+        (obs'.a \in {"Track", "Register"} /\ <<obs'.p, obs'.t, obs'.s>> = k)]_vars
 
 \* a registration is announced as New exactly when it turns valid; valid never reverts while tracked
 ValidMonotone ==
